@@ -131,7 +131,7 @@ PROPS = {
                      "MantraDex.C15Sys.new_positions_belong_to_signer_partial", "MantraDex.C15Sys.farms_change_only_by_authorised_tx",
                      "MantraDex.C15Sys.second_leg_receiver_defaults_to_pm"],
         "extra_modules": ["MantraDex.Properties.C15Sys"],
-        "streams": {"auth": (1, 1), "pm_hist": (40, 2000), "fm_hist": (40, 2000)},
+        "streams": {"auth": (1, 1), "inst": (1500, 60000), "pm_hist": (40, 2000), "fm_hist": (40, 2000)},
         "what": "ownership moves only when the pending owner accepts before expiry or the owner renounces; transfer/renounce need the owner; a renounced "
                 "contract rejects every ownership action; on all four contracts config/ownership messages need the owner (resp. pending owner) and no "
                 "funds, non-privileged messages never change config or ownership; farm expansion needs the farm owner, farm closing the farm owner or "
@@ -166,15 +166,23 @@ PROPS = {
         "theorems": ["swap_disabled_direct", "performSwap_status", "route_requires_enabled", "deposit_disabled", "withdraw_disabled",
                      "single_asset_blocked_by_swap_switch", "toggle_only_named_pool", "reenable_restores", "new_pool_all_enabled",
                      "MantraDex.C17NI.more_enabled_simulates", "MantraDex.C17NI.less_enabled_refuses_or_same", "MantraDex.C17NI.reply_simulates",
-                     "MantraDex.C17NI.simulation_ignores_switches"],
-        "extra_modules": ["MantraDex.Properties.C17NI"],
+                     "MantraDex.C17NI.simulation_ignores_switches",
+                     "MantraDex.C17Sys.lp_supply_increase_names_pool", "MantraDex.C17Sys.swaps_disabled_reserves_frozen",
+                     "MantraDex.C17Sys.swaps_disabled_reserves_frozen_of_ids", "MantraDex.C17Sys.deposits_disabled_no_mint",
+                     "MantraDex.C17Sys.withdrawals_disabled_no_burn", "MantraDex.C17Sys.toggle_tx_only_named_pool",
+                     "MantraDex.C17Sys.created_pool_enabled"],
+        "extra_modules": ["MantraDex.Properties.C17NI", "MantraDex.Properties.C17Sys"],
         "streams": {"pm_hist": (80, 4000), "twin": (60, 3000)},
         "what": "swaps disabled: direct swap rejected, any route through the pool rejected as a whole, a single-asset deposit's whole transaction "
                 "rejected (through the runtime: its inner swap is a reply-on-success sub-message); deposits disabled: every deposit shape rejected; "
                 "withdrawals disabled: rejected; swaps never change any switch; a toggle touches only the named pool and only its switches; "
                 "re-enabling restores the pool exactly; new pools start fully enabled. NON-INTERFERENCE (C17NI): two states differing only in pool switches "
                 "give the same response and related result states on every message, except that the less enabled one may refuse with `disabled` "
-                "(more_enabled_simulates, less_enabled_refuses_or_same, reply_simulates, simulation_ignores_switches)",
+                "(more_enabled_simulates, less_enabled_refuses_or_same, reply_simulates, simulation_ignores_switches). WHOLE TRANSACTIONS (C17Sys; nested calls, replies, "
+                "rollbacks, faults): with swaps disabled on a pool, whatever anybody sends, its reserves change only through a multi-asset deposit into it or a withdrawal from it "
+                "(direct swaps, routes of any shape, single-asset deposits are all refused as a whole); with deposits disabled the supply of its LP token never grows, with withdrawals "
+                "disabled it never shrinks; a toggling transaction leaves every other pool exactly as it was; a pool created by a transaction starts fully enabled with zero reserves; a "
+                "transaction that increases the supply of a pool's LP token is a ProvideLiquidity naming that pool",
         "assumptions": ["non-interference is proved at the level of the pool manager's entry points (execute, reply, simulation query); across whole "
                         "transactions on the implementation it is validated by the twin-deployment stream (mon_twin_c17)"],
     },
